@@ -7,11 +7,11 @@ CONSTANTS
   Flip4 <- MCEmpty
   Cidr4B <- MCEmpty
   Sweep6 <- MCSweep6T
-  Base6 <- MCBase6
+  Base6 <- MCEmpty
   Net6 <- MCEmpty
   Flip6 <- MCEmpty
   Cidr6B <- MCEmpty
-  Rich6 <- MCRich6
+  Rich6 <- MCEmpty
   Macs <- MCMicroMac
   RichMacs <- MCEmpty
   Dpids <- MCEmpty
